@@ -29,6 +29,8 @@ def run(repo, res, tier):
     sk_bash.fresh_rule(repo, res, tier)
     sk_bash.candord_rule(repo, res, tier)
     sk_bash.matchfn_rule(repo, res, tier)
+    # inside a word the same `||` order holds only if the shared matcher walks its own levels from 0 on its own tables (S7, S8; shared with C01 / C12)
+    sk_bash.sub_rule(repo, res, tier)
     c04.shared_cmd_ids(repo, res)
     c04.names_rule(repo, res)  # the body of _<cmd>_cmd_<id> is fed from the command set; the names called are the names defined
     from vlib import rules_fieldcover as FC
